@@ -192,3 +192,86 @@ def b_canon_pairs(tier, rnd):
     ns = canon_names(2)
     return {"rule": "all ordered pairs of the 35 canonical names (<= 2 accidentals)", "exhaustive_upto": 2,
             "cases": [(a, b) for a in ns for b in ns]}
+
+
+@battery("names4")
+def b_names4(tier, rnd):
+    n = bound(tier, 4, 6)
+    return {"rule": "7 letters x every '#'/'b' string of length <= %d (all orderings)" % n,
+            "exhaustive_upto": n, "cases": [(x,) for x in all_names(n)]}
+
+
+@battery("unit")
+def b_unit(tier, rnd):
+    return {"rule": "the single call with no arguments", "cases": [()]}
+
+
+def _shorthands():
+    import sys
+    from contracts.specfuns import SHORTHAND_STEPS
+    return sorted(SHORTHAND_STEPS)
+
+
+@battery("shorthand_root")
+def b_shorthand_root(tier, rnd):
+    n = bound(tier, 2, 3)
+    return {"rule": "every chord shorthand of the spec vocabulary x every name with <= %d accidentals" % n,
+            "exhaustive_upto": n, "cases": [(s, r) for s in _shorthands() for r in all_names(n)]}
+
+
+@battery("shorthand_pairs_root")
+def b_shorthand_pairs_root(tier, rnd):
+    shs = _shorthands()
+    return {"rule": "all ordered pairs of chord shorthands x 35 canonical roots",
+            "cases": [(a, b, r) for a in shs for b in shs for r in canon_names(2)]}
+
+
+@battery("chord_shorthand_strings")
+def b_chord_shorthand_strings(tier, rnd):
+    shs = _shorthands()
+    cases = []
+    roots = canon_names(2) + ["C#b", "Eb#", "F###", "Gbbb"]
+    for r in roots:
+        for s in shs:
+            cases.append((r + s,))
+    # alias spellings
+    def variants(s):
+        out = set()
+        for a in ("min", "mi", "-"):
+            if "m" in s:
+                out.add(s.replace("m", a))
+        for a in ("maj", "ma"):
+            if "M" in s:
+                out.add(s.replace("M", a))
+        return out
+    for r in ("C", "F#", "Bb", "Abb", "E##"):
+        for s in shs:
+            for v in variants(s):
+                cases.append((r + v,))
+    # slash chords: every suffix x basses (valid and invalid)
+    basses = canon_names(1) + ["C##", "Dbb", "H", "x", "c", "1", "Gx"]
+    for r in ("C", "Eb", "F#"):
+        for s in shs:
+            for b in basses:
+                cases.append((r + s + "/" + b,))
+    # polychords
+    small = ["", "m", "7", "M7", "dim", "sus4", "m7b5", "6/9", "m/M7", "9", "5", "13"]
+    for r1 in ("C", "Eb", "F#", "Bbb"):
+        for s1 in small:
+            for r2 in ("C", "G", "Db", "A#"):
+                for s2 in small:
+                    cases.append((r1 + s1 + "|" + r2 + s2,))
+    cases.append(("C|G|D",))
+    cases.append(("Am|C|Em7",))
+    # special and malformed
+    for x in ["NC", "N.C.", "H", "H7", "c", "cm", "1", "x7", " C", "Cxyz", "Cm8", "CM77", "Csus5", "C7b55", "Cadd2",
+              "Cdim9", "C7#", "Cb5", "C#m#", "C/", "C|", "CmM", "Cmajor", "Cminor", "Cmaj", "Cmin", "C-", "C-7", "Cma7",
+              "Cmi7", "Cmin7b5", "Cm7-5", "C7/H", "Cxx/E", "Cxx/H", "Cxx|G", "C|Gxx", "C|H"]:
+        cases.append((x,))
+    cases.append((["C", "Am7", "G7/B", "NC"],))
+    cases.append(([],))
+    cases.append((["C", "Hm"],))
+    cases.append((["Cxx"],))
+    return {"rule": "39 roots x every shorthand; alias spellings (min/mi/-/maj/ma) of every shorthand on 5 roots; "
+                    "3 roots x every shorthand x 28 basses (valid/invalid); 48x48 polychords; NC; lists; 38 malformed",
+            "cases": cases}
